@@ -421,7 +421,10 @@ def same(a, b, rel=0.0):
     if a is None or b is None:
         return a is None and b is None
     if isinstance(a, (str, bytes)) or isinstance(b, (str, bytes)):
-        return type(a) == type(b) and a == b
+        if type(a) == type(b) and a == b:
+            return True
+        ta, tb = _timeval(a), _timeval(b)
+        return ta is not None and ta == tb
     if isinstance(a, complex) or isinstance(b, complex):
         a, b = complex(a), complex(b)
         return same(a.real, b.real, rel) and same(a.imag, b.imag, rel)
@@ -435,6 +438,24 @@ def same(a, b, rel=0.0):
             return math.isclose(a, b, rel_tol=rel, abs_tol=1e-300)
         return False
     return a == b
+
+
+_UNITS = {"Y": None, "M": None, "W": 7 * 86400 * 10 ** 9, "D": 86400 * 10 ** 9, "h": 3600 * 10 ** 9, "m": 60 * 10 ** 9,
+          "s": 10 ** 9, "ms": 10 ** 6, "us": 10 ** 3, "ns": 1}
+
+
+def _timeval(x):
+    """('M'|'m', nanoseconds) of a model datetime/timedelta value 'M8[s]:12', else None"""
+    if not isinstance(x, str) or len(x) < 6 or x[0] not in "Mm" or x[1:3] != "8[":
+        return None
+    try:
+        unit, n = x[3:].split("]:")
+        scale = _UNITS.get(unit)
+        if scale is None:
+            return None
+        return (x[0], int(n) * scale)
+    except ValueError:
+        return None
 
 
 def brief(v, limit=300):
